@@ -6,10 +6,13 @@ equal arguments must agree, as must the national summary after equal estimate ru
 The Lean side: generator / client-state discipline, set-iteration independence of the aggregate list, and bridge lemmas to the list
 of randomness sources re-read from source (all seeded, none at module level).
 """
+import copy
 import json
 import os
 import random
+import shutil
 import subprocess
+import tempfile
 
 import numpy as np
 
@@ -80,6 +83,7 @@ def run_history(history, seed):
     cl = E.client_mod().ModelClient()
     out = []
     last = None
+    shared = {}
 
     def el_args(key):
         a = sets[key]
@@ -110,6 +114,35 @@ def run_history(history, seed):
             el, a = el_args(h[1])
             r = E.run_client(el, **a)
             out.append(P.digest(r["tables"]) if "tables" in r else "raises:" + r["raises"])
+        elif h[0] == "shared":
+            # a caller that keeps ONE baseline frame, ONE configuration object and ONE feed frame and passes them to every call
+            el, a = el_args(h[1])
+            if not shared:
+                shared.update(pre=e.pre.copy(), cfg=e.config(), cur=e.cur.copy())
+            el2 = copy.copy(el)
+            el2.cur = shared["cur"]
+            r = E.run_client(el2, reuse_feed=True, extra={"preprocessed_data": shared["pre"], "raw_config": shared["cfg"]}, **a)
+            out.append(P.digest(r["tables"]) if "tables" in r else "raises:" + r["raises"])
+        elif h[0] == "cached":
+            # the baseline is read from the local copy (preprocessed_data not passed): first a pristine copy, then the copy that a run
+            # of argument set h[2] with save_output=['data'] leaves there.  Equal arguments both times.
+            el, a = el_args(h[1])
+            _, saver = el_args(h[2])
+            cwd = os.getcwd()
+            work = tempfile.mkdtemp(prefix="c12_cache_")
+            dg = lambda x: P.digest(x["tables"]) if "tables" in x else "raises:" + x["raises"]  # noqa: E731
+            try:
+                os.chdir(work)
+                path = os.path.join(work, "data", E.ELECTION_ID, el.office, f"data_{el.unit_type}.csv")
+                os.makedirs(os.path.dirname(path))
+                el.pre.to_csv(path, index=False)
+                d1 = dg(E.run_client(el, extra={"preprocessed_data": None}, **a))
+                E.run_client(el, extra={"preprocessed_data": None, "save_output": ["data"]}, **saver)
+                d2 = dg(E.run_client(el, extra={"preprocessed_data": None}, **a))
+            finally:
+                os.chdir(cwd)
+                shutil.rmtree(work, ignore_errors=True)
+            out.append("cached:" + d1 + "|" + d2)
         else:
             d = None if h[1] == "none" else {s: 3 + i for i, s in enumerate(sorted(set(e.states) | set(e.cur["postal_code"])))}
             res = []
@@ -143,6 +176,14 @@ def gen_history(rng, other=None, big=False):
         h.append(["nat", "none", 2])
     for k in keys:
         h.append(["fresh", k])
+    if not big:
+        # a caller that shares its baseline / configuration / feed objects between calls, and the locally cached baseline
+        for k in keys:
+            h.insert(rng.randint(1, len(h)), ["shared", k])
+        h.append(["shared", keys[-1]])
+        a, b = rng.sample(keys, 2)
+        h.append(["cached", a, b])
+        h.append(["cached", b, b])
     return h
 
 
@@ -159,7 +200,16 @@ def check_history(run, case, history, digests, where):
                               signature="C12:estimate")
                 return False
             continue
-        if h[0] in ("est", "fresh"):
+        if h[0] == "cached":
+            a, b = d[len("cached:"):].split("|")
+            if a != b:
+                run.violation("two runs with equal arguments (baseline read from the local copy) differ before / after a run that saved "
+                              "the baseline with save_output=['data'] (" + where + ")", input=case,
+                              impl={"arguments": h[1], "saved_by": h[2], "digests": [a[:12], b[:12]]},
+                              predicate="estimate_history_independent", signature="C12:cached")
+                return False
+            continue
+        if h[0] in ("est", "fresh", "shared"):
             k = h[1]
             if k in seen and seen[k] != d:
                 run.violation("two estimate runs with equal arguments returned different tables (" + where + ")", input=case,
